@@ -166,6 +166,16 @@ def make_im(spec, version):
     want, _ = c10.images_expected(old)
     exp = IM.expected_observation(spec)
     exp["cells"] = want
+    # the documented re-filing of 'src' images may put two DIFFERENT images with one path into the same cell: C02/C05 speak of
+    # cells whose images have distinct paths (the file orders a cell by path), so such a description is outside the domain
+    for v in want:
+        for a in want[v]:
+            paths = [json.dumps(i, sort_keys=True) for i in want[v][a]]
+            by_path = {}
+            for i in want[v][a]:
+                by_path.setdefault(i["path"] if isinstance(i, dict) else i[0], set()).add(json.dumps(i, sort_keys=True))
+            if any(len(x) > 1 for x in by_path.values()):
+                return None
     return json.dumps(old), exp
 
 
